@@ -666,6 +666,40 @@ registry! {
 pub fn ser_handler(a: &[&str]) -> String { ser_dispatch(a[0], a[1]).unwrap_or_else(|| "?bad-type".into()) }
 pub fn de_handler(a: &[&str]) -> String { de_dispatch(a[0], &unhex(a[1])).unwrap_or_else(|| "?bad-type".into()) }
 
+// ------------------------------------------------------------------ SERD: recursive types, deep values (implementation-side oracle only)
+#[derive(Serialize, Deserialize, Debug, Clone, PartialEq)] pub enum Chain { End, Link(Box<Chain>) }
+#[derive(Serialize, Deserialize, Debug, Clone, PartialEq)] pub struct Nest(Vec<Nest>);
+#[derive(Serialize, Deserialize, Debug, Clone, PartialEq)] pub struct Node { v: u8, next: Option<Box<Node>> }
+
+/// SERD <kind> <depth>: a value of a recursive type nested <depth> levels deep is serialised and read back (no depth limit is
+/// documented: it round-trips like any other value).  Runs on a thread with a large stack so that the derived impls' own
+/// recursion is not the limit.  Result: "depth=<n>;ok" (the model side prints the same constant).
+pub fn serd_handler(a: &[&str]) -> String {
+    let kind = a[0].to_string();
+    let depth: usize = a[1].parse().unwrap();
+    let r = std::thread::Builder::new().stack_size(256 << 20).spawn(move || -> Result<(), String> {
+        fn rt<T: Serialize + for<'a> Deserialize<'a> + PartialEq>(v: T) -> Result<(), String> {
+            let bytes = crate::sser::to_vec(&v).map_err(|_| "serialisation refused".to_string())?;
+            if !{ let mut d = minicbor::Decoder::new(&bytes); d.skip().is_ok() && d.position() == bytes.len() } { return Err("output is not exactly one CBOR item".into()) }
+            let mut d = minicbor_serde::Deserializer::new(&bytes);
+            let back = T::deserialize(&mut d).map_err(|e| format!("reading back the serialisation failed: {}", classify_text(&e.to_string())))?;
+            if d.decoder().position() != bytes.len() { return Err("deserialisation did not consume the item".into()) }
+            let same = back == v;
+            std::mem::forget(back); std::mem::forget(v);          // the derived Drop glue recurses too; leak instead
+            if same { Ok(()) } else { Err("round trip changed the value".into()) }
+        }
+        match kind.as_str() {
+            "chain" => { let mut c = Chain::End; for _ in 0 .. depth { c = Chain::Link(Box::new(c)) } rt(c) }
+            "nest" => { let mut n = Nest(Vec::new()); for _ in 0 .. depth { n = Nest(vec![n]) } rt(n) }
+            _ => { let mut n = Node { v: 0, next: None }; for i in 0 .. depth { n = Node { v: i as u8, next: Some(Box::new(n)) } } rt(n) }
+        }
+    }).unwrap().join();
+    match r {
+        Ok(v) => with_oracle(format!("depth={};ok", depth), v),
+        Err(_) => with_oracle(format!("depth={};ok", depth), Err("panic / stack exhaustion".into()))
+    }
+}
+
 // ------------------------------------------------------------------ C18: bridge vs native on the shared data model
 #[cfg(not(feature = "cfgmatrix"))]
 mod c18 {
@@ -732,6 +766,20 @@ where T: Canon + Deserialize<'static> + for<'b> minicbor::Decode<'b, ()>
         if a.show() != b.show() { verdict = Err(format!("the two decoders return different values: {} vs {}", a.show(), b.show())) }
         else if p1 != p2 { verdict = Err(format!("the two decoders stop at different positions: {} vs {}", p1, p2)) }
     }
+    // mixed messages: a native decoder that stands behind a header is handed to the bridge (Deserializer::from): both sides read
+    // the same item from the same decoder state
+    let mut pre = vec![0x18u8, 0x2a]; pre.extend_from_slice(inp);
+    let pre = leak(&pre);
+    let mut nd = minicbor::Decoder::new(pre);
+    let _ = nd.u8();
+    let mut d3 = minicbor_serde::Deserializer::from(nd.clone());
+    let r3 = T::deserialize(&mut d3);
+    let p3 = d3.decoder().position();
+    let r4: Result<T, _> = nd.decode();
+    if let (Ok(a), Ok(b)) = (&r3, &r4) {
+        if a.show() != b.show() || p3 != nd.position() { verdict = Err(format!("from a decoder at position 2 the bridge reads {} @{} and the native decoder {} @{}", a.show(), p3, b.show(), nd.position())) }
+    }
+    if verdict.is_ok() && (r3.is_ok() != r1.is_ok() || (r3.is_ok() && p3 != p1 + 2)) { verdict = Err("Deserializer::from(decoder at position 2) does not behave like a fresh deserializer on the same item".into()) }
     with_oracle(format!("{};{}", show_sres(r1, p1, |x| x.show()), show_res(r2, p2, |x| x.show())), verdict)
 }
 
